@@ -10,6 +10,11 @@ open RdfModel RdfModel.Desc RdfModel.JL RdfModel.JLEnc RdfModel.C10
 #print axioms RdfModel.C10.writeFlat_denotes
 #print axioms RdfModel.C10.forest_certificate
 #print axioms RdfModel.C10.encoder_roundtrip_partial
+#print axioms RdfModel.C10.usedPrefixes_nodup
+#print axioms RdfModel.C10.encoder_context_read
+#print axioms RdfModel.C10.encoder_iri_roundtrip
+#print axioms RdfModel.C10.encoder_doc_context
+#print axioms RdfModel.C10.encoder_statement_read
 #print axioms RdfModel.C10.gen_keywords
 #print axioms RdfModel.C10.gen_no_network_imports
 #print axioms RdfModel.C10.gen_default_loader_refuses
@@ -20,6 +25,7 @@ open RdfModel RdfModel.Desc RdfModel.JL RdfModel.JLEnc RdfModel.C10
 #print axioms RdfModel.C10.Witness.validated
 #print axioms RdfModel.C10.Witness.cert
 #print axioms RdfModel.C10.Witness.natural
+#print axioms RdfModel.C10.Witness.natural2
 
 theorem RdfModel.C10.Witness.name_injective : Function.Injective Witness.name := by
   intro a b h
